@@ -849,7 +849,11 @@ class Optimizer(Logger, Citable):
 
         result_dict = {}
 
-        sorted_weights = weights.argsort()
+        # Samples are dealt round-robin: rank r holds r, r+n, r+2n, ...
+        # and the gathered lists are concatenated in rank order
+        gather_order = np.concatenate(
+            [np.arange(r, len_samples, num_procs)
+             for r in range(num_procs)]).astype(int)
 
         for param, (trace, w) in derived_param.items():
 
@@ -858,11 +862,9 @@ class Optimizer(Logger, Citable):
             # I cant remember why this works
             all_weight = np.array(mpi.allreduce(w, op='SUM'))
 
-            all_weight_sort = all_weight.argsort()
-
-            # Sort them into the right order
-            all_weight[sorted_weights] = all_weight[all_weight_sort]
-            all_trace[sorted_weights] = all_trace[all_weight_sort]
+            # Put them back into sample order
+            all_weight[gather_order] = all_weight.copy()
+            all_trace[gather_order] = all_trace.copy()
 
             q_16, q_50, q_84 = \
                 quantile_corner(np.array(all_trace), [0.16, 0.5, 0.84],
